@@ -287,7 +287,7 @@ func addMap(dst, src map[string]int64) {
 
 func runWorker(bin string, args []string, gomaxprocs int, outFile string, timeout time.Duration) (*summary, error) {
 	cmd := exec.Command(bin, append(args, "-out", outFile)...)
-	cmd.Env = append(os.Environ(), fmt.Sprintf("GOMAXPROCS=%d", gomaxprocs), "GOMEMLIMIT=6GiB")
+	cmd.Env = append(os.Environ(), fmt.Sprintf("GOMAXPROCS=%d", gomaxprocs), "GOMEMLIMIT=2GiB")
 	var stderr bytes.Buffer
 	cmd.Stderr = &stderr
 	done := make(chan error, 1)
@@ -492,6 +492,10 @@ func doCheck(repo, verif, prop string, pc propConf, tier string, seed uint64, wo
 	knownObserved := map[string]int64{}
 	var reported []string
 	var unrepro []string
+	maxReport := 5
+	if v, err := strconv.Atoi(os.Getenv("VERIF_MAX_REPORT")); err == nil && v > 0 {
+		maxReport = v
+	}
 	exit := 0
 	os.MkdirAll(filepath.Join(verif, "replays"), 0o755)
 	freshReplay := func(file string) (int, string) {
@@ -516,7 +520,7 @@ func doCheck(repo, verif, prop string, pc propConf, tier string, seed uint64, wo
 			knownObserved[k.ID] = tot.ViolCounts[v.key()]
 			continue
 		}
-		if len(reported) >= 5 {
+		if len(reported) >= maxReport {
 			continue
 		}
 		// Up to three recorded samples of the class: raw replay file -> minimise -> replay in a
